@@ -1,245 +1,291 @@
-"""C11 extractor: source facts of the batch machinery -> lean/PyroModel/Gen/C11.lean
+"""C11 extractor: facts about the batch machinery of the CURRENT source of common.REPO -> lean/PyroModel/Gen/C11.lean
 
-Everything is read from the CURRENT source of common.REPO (import + ast).  The walk is deliberately
-conservative: a statement the walker does not recognise becomes an `other:<NodeType>` token, which no
-obligation in PyroProps/C11.lean accepts.
+All facts are BEHAVIOURAL probes of the real objects, taken at extraction time (nothing is read from the source
+text, so renamed locals / private helpers, docstrings, type hints, equivalent control flow do not matter):
+
+  serverProbes     the real Daemon.handleRequest, called synchronously on one end of a socketpair with a real INVOKE
+                   message (FLAGS_BATCH, with and without FLAGS_ONEWAY) for a fixed table of call lists against a small
+                   probe object: how many calls had been executed when handleRequest returned, and what came back on the
+                   wire (result list with wrappers / exception response / nothing; FLAGS_BATCH on the reply)
+  singleProbes     the same for plain single calls (same gate, same serialize-or-fallback of a raised exception)
+  generatorProbes  a real client.BatchProxy on top of a scripted stand-in for the Proxy: what the caller gets out of the
+                   object returned by batch() for a fixed table of result lists (values, wrappers, exception objects as values)
+  clientFacts      BatchProxy / _BatchedRemoteMethod / Proxy._pyroInvokeBatch / _ExceptionWrapper.raiseIt observed from outside
+  dumpsCallNoKwargs, wrapperInReplyList   per serializer (executed)
+
+PyroProps/C11.lean proves (by `decide`) that the MODEL gives exactly the observed outcome on every probe
+(`probeObj` there is the model of class Probe here).  Encoding of outcomes: see `_reply_tokens`.
 """
-import ast
 import json
 import os
+import shutil
+import socket
+import tempfile
 
 import common
 
+# ---- the probe object and the ids shared with PyroProps/C11.lean (probeObj) -----------------------------------------
+P_NAMES = ["ok", "boom", "unsend", "hidden", "_private", "nosuch"]
+E_PRIVATE, E_MISSING, E_UNEXPOSED, E_FALLBACK, E_UNKNOWN = 101, 102, 103, 900, 999
+SERVER_SCENARIOS = [
+    (False, []),
+    (False, [(0, 1), (0, 2), (0, 3)]),
+    (False, [(0, 1), (1, 7), (0, 3)]),
+    (False, [(1, 7), (0, 1)]),
+    (False, [(0, 1), (3, 0), (0, 3)]),
+    (False, [(0, 1), (0, 2), (4, 0), (0, 3)]),
+    (False, [(5, 0), (0, 1)]),
+    (False, [(0, 1), (2, 0), (0, 2)]),
+    (True, []),
+    (True, [(0, 1), (0, 2), (0, 3)]),
+    (True, [(0, 1), (1, 7), (0, 3)]),
+    (True, [(0, 1), (3, 0), (0, 3)]),
+]
+SINGLE_SCENARIOS = [(0, 5), (1, 7), (2, 0), (3, 0), (4, 0), (5, 0)]
+# result lists handed to the client side: even token 2v = plain value v, odd token 2e+1 = wrapper of exception e
+GENERATOR_SCENARIOS = [
+    [],
+    [2, 4, 6],
+    [2, 15, 6],
+    [15],
+    [2, 4, 19],
+    [2, 100, 4],          # value 50 is an exception OBJECT returned as a value: must be yielded, not raised
+    [102, 15],            # value 51 likewise, then a real wrapper
+    [104, 106, 2],        # None, []
+]
 
-def _name(node):
-    """dotted name of a Name/Attribute chain, '' otherwise"""
-    if isinstance(node, ast.Name):
-        return node.id
-    if isinstance(node, ast.Attribute):
-        b = _name(node.value)
-        return (b + "." if b else "") + node.attr
-    return ""
+
+def _make_probe_class():
+    common.repo_on_path()
+    from Pyro5 import server
+
+    class Probe(object):
+        def __init__(self):
+            self.n = 0
+            self.opaque = object()
+
+        @server.expose
+        def ok(self, x):
+            self.n += 1
+            return x
+
+        @server.expose
+        def boom(self, x):
+            self.n += 1
+            raise ValueError(x)
+
+        @server.expose
+        def unsend(self, x):
+            self.n += 1
+            raise KeyError(self.opaque)        # this instance cannot be serialised
+
+        def hidden(self, x):                   # public, not exposed
+            self.n += 1
+            return x
+
+        def _private(self, x):
+            self.n += 1
+            return x
+    return Probe
 
 
-def _find_func(tree, cls, fn):
-    for n in tree.body:
-        if cls is None and isinstance(n, ast.FunctionDef) and n.name == fn:
-            return n
-        if isinstance(n, ast.ClassDef) and n.name == cls:
-            for m in n.body:
-                if isinstance(m, ast.FunctionDef) and m.name == fn:
-                    return m
-    raise ValueError("source shape not recognised: %s.%s not found" % (cls, fn))
+def _exc_token(e):
+    msg = str(e)
+    if isinstance(e, AttributeError):
+        if msg.startswith("attempt to access private attribute"):
+            return E_PRIVATE
+        if msg.startswith("attempt to access unexposed attribute"):
+            return E_UNEXPOSED
+        if "nosuch" in msg:
+            return E_MISSING
+    if type(e) is ValueError and len(e.args) == 1 and isinstance(e.args[0], int) and 0 <= e.args[0] < 100:
+        return e.args[0]
+    if type(e).__name__ == "PyroError" and msg.startswith("Error serializing exception") and "KeyError" in msg:
+        return E_FALLBACK
+    return E_UNKNOWN
 
 
-def _is_flag_test(test, var, flag):
-    """`<var> & protocol.<flag>`"""
-    return (isinstance(test, ast.BinOp) and isinstance(test.op, ast.BitAnd)
-            and _name(test.left) == var and _name(test.right).endswith(flag))
-
-
-def _server_tokens(stmts):
-    out = []
-    for st in stmts:
-        if isinstance(st, ast.Assign) and isinstance(st.value, ast.Call) and _name(st.value.func).endswith("_get_attribute"):
-            out.append("gate:" + _name(st.value.func).split(".")[-1])
-        elif isinstance(st, ast.Assign) and isinstance(st.value, ast.Call) and _name(st.value.func) == "method" \
-                and any(isinstance(a, ast.Starred) for a in st.value.args) and any(k.arg is None for k in st.value.keywords):
-            out.append("call")
-        elif isinstance(st, ast.Assign) and len(st.targets) == 1 and _name(st.targets[0]).endswith("._pyroTraceback"):
-            out.append("set-traceback")
-        elif isinstance(st, ast.Assign) and isinstance(st.value, ast.Call) and _name(st.value.func).endswith("format_traceback"):
-            out.append("format-traceback")
-        elif isinstance(st, ast.Assign) and isinstance(st.value, ast.Call) and _name(st.value.func).endswith("_serializeException"):
-            out.append("serialize-or-fallback")
-        elif isinstance(st, ast.Expr) and isinstance(st.value, ast.Call) and _name(st.value.func) == "data.append":
-            a = st.value.args[0]
-            if isinstance(a, ast.Call) and _name(a.func).endswith("_ExceptionWrapper"):
-                out.append("append:wrapper")
-            elif isinstance(a, ast.Name):
-                out.append("append:" + a.id)
+def _reply_tokens(protocol, core, ser, msg, batch):
+    """[] nothing sent | [0, e] exception response | [1, items…] result list WITH FLAGS_BATCH | [3, items…] result list
+    without it | [2, v] plain value | [9] anything else"""
+    if msg is None:
+        return []
+    if msg.type != protocol.MSG_RESULT:
+        return [9]
+    data = ser.loads(msg.data)
+    if msg.flags & protocol.FLAGS_EXCEPTION:
+        return [0, _exc_token(data)] if isinstance(data, BaseException) else [9]
+    if batch:
+        if not isinstance(data, list):
+            return [9]
+        toks = [1 if msg.flags & protocol.FLAGS_BATCH else 3]
+        for it in data:
+            if isinstance(it, core._ExceptionWrapper):
+                toks.append(2 * _exc_token(it.exception) + 1)
+            elif isinstance(it, int) and not isinstance(it, bool) and 0 <= it < 100:
+                toks.append(2 * it)
             else:
-                out.append("append:?")
-        elif isinstance(st, ast.Expr) and isinstance(st.value, ast.Call) and _name(st.value.func).endswith("methodcall_error_handler"):
-            out.append("hook")
-        elif isinstance(st, ast.Break):
-            out.append("break")
-        elif isinstance(st, ast.Try):
-            out.append("try[")
-            out += _server_tokens(st.body)
-            out.append("]")
-            for h in st.handlers:
-                out.append("except:%s[" % (_name(h.type) if h.type is not None else "*"))
-                out += _server_tokens(h.body)
-                out.append("]")
-            if st.orelse:
-                out.append("else[")
-                out += _server_tokens(st.orelse)
-                out.append("]")
-            if st.finalbody:
-                out.append("finally[")
-                out += _server_tokens(st.finalbody)
-                out.append("]")
-        else:
-            out.append("other:" + type(st).__name__)
-    return out
+                return [9]
+        return toks
+    if isinstance(data, int) and not isinstance(data, bool) and 0 <= data < 100:
+        return [2, data]
+    return [9]
 
 
-def server_facts(tree):
-    fn = _find_func(tree, "Daemon", "handleRequest")
-    batch_if = None
-    for node in ast.walk(fn):
-        if isinstance(node, ast.If) and _is_flag_test(node.test, "request_flags", "FLAGS_BATCH"):
-            # the request-side test (the reply side tests `wasBatched`)
-            batch_if = node
-            break
-    if batch_if is None:
-        raise ValueError("source shape not recognised: no `if request_flags & FLAGS_BATCH` in handleRequest")
-    loops = [s for s in batch_if.body if isinstance(s, ast.For)]
-    if len(loops) != 1:
-        raise ValueError("source shape not recognised: batch branch has %d for-loops" % len(loops))
-    loop = loops[0]
-    shape = _server_tokens(loop.body)
-    # wasBatched = True after the loop, inside the batch branch
-    after = batch_if.body[batch_if.body.index(loop) + 1:]
-    flag_after = any(isinstance(s, ast.Assign) and _name(s.targets[0]) == "wasBatched"
-                     and isinstance(s.value, ast.Constant) and s.value.value is True for s in after)
-    # the single call branch: `method = _get_attribute(obj, method)` in the else part of the batch test
-    single_gate = ""
-    for node in batch_if.orelse:
-        for sub in ast.walk(node):
-            if isinstance(sub, ast.Assign) and isinstance(sub.value, ast.Call) and _name(sub.value.func).endswith("_get_attribute") \
-                    and _name(sub.targets[0]) == "method":
-                single_gate = _name(sub.value.func).split(".")[-1]
-    # oneway: `if request_flags & FLAGS_ONEWAY: return` precedes `data = serializer.dumps(data)` in the same block
-    oneway_first = False
-    for node in ast.walk(fn):
-        body = getattr(node, "body", None)
-        if not isinstance(body, list):
-            continue
-        for blk in (body, getattr(node, "orelse", []) or []):
-            for i, st in enumerate(blk):
-                if isinstance(st, ast.If) and _is_flag_test(st.test, "request_flags", "FLAGS_ONEWAY") \
-                        and len(st.body) == 1 and isinstance(st.body[0], ast.Return) and st.body[0].value is None:
-                    dumps_in_else = any(isinstance(x, ast.Assign) and isinstance(x.value, ast.Call)
-                                        and _name(x.value.func) == "serializer.dumps" for x in st.orelse)
-                    sends_before = any(isinstance(x, ast.Expr) and isinstance(x.value, ast.Call)
-                                       and _name(x.value.func) == "conn.send" for x in blk[:i])
-                    if dumps_in_else and not sends_before:
-                        oneway_first = True
-    # the plain call's exception response goes through the same serialize-or-fallback step as a failed batch member
-    ser = _find_func(tree, "Daemon", "_sendExceptionResponse")
-    single_fallback = any(isinstance(st, ast.Assign) and isinstance(st.value, ast.Call)
-                          and _name(st.value.func) == "self._serializeException"
-                          and [_name(a) for a in st.value.args] == ["serializer", "exc_value", "tbinfo"] for st in ser.body)
-    batch_fallback_args = []
-    for st in ast.walk(loop):
-        if isinstance(st, ast.Assign) and isinstance(st.value, ast.Call) and _name(st.value.func) == "self._serializeException":
-            batch_fallback_args.append([_name(a) for a in st.value.args])
-    same_fallback = single_fallback and batch_fallback_args == [["serializer", "xv", "tblines"]]
-    return shape, single_gate, oneway_first, flag_after, same_fallback
+def server_probes():
+    """-> (batch probes [(oneway, calls, executed, tokens)], single probes [((n, a), executed, tokens)])"""
+    common.repo_on_path()
+    from Pyro5 import server, protocol, serializers, socketutil, core
+    Probe = _make_probe_class()
+    tmp = tempfile.mkdtemp(prefix="c11x-", dir="/tmp")
+    ser = serializers.serializers["serpent"]
+    d = server.Daemon(unixsocket=os.path.join(tmp, "d.sock"))
+    obj = Probe()
+    d.register(obj, "probe")
+
+    def request(flags, method, vargs, kwargs, batch):
+        obj.n = 0
+        a, b = socket.socketpair()
+        try:
+            conn = socketutil.SocketConnection(a, "probe")
+            peer = socketutil.SocketConnection(b)
+            req = protocol.SendingMessage(protocol.MSG_INVOKE, flags, 7, ser.serializer_id,
+                                          ser.dumpsCall("probe", method, vargs, kwargs))
+            b.sendall(req.data)
+            try:
+                d.handleRequest(conn)
+            except Exception:
+                return obj.n, [9]
+            executed = obj.n           # at the moment handleRequest returned (a oneway batch runs in-line)
+            b.settimeout(0.0)
+            try:
+                waiting = b.recv(1, socket.MSG_PEEK)
+            except (BlockingIOError, socket.timeout, OSError):
+                waiting = b""
+            msg = None
+            if waiting:
+                b.settimeout(10.0)
+                msg = protocol.recv_stub(peer, None)
+                if msg.seq != 7:
+                    return executed, [9]
+            return executed, _reply_tokens(protocol, core, ser, msg, batch)
+        finally:
+            a.close()
+            b.close()
+
+    try:
+        batches = []
+        for oneway, calls in SERVER_SCENARIOS:
+            flags = protocol.FLAGS_BATCH | (protocol.FLAGS_ONEWAY if oneway else 0)
+            wire_calls = [(P_NAMES[n], (x,), {}) for n, x in calls]
+            executed, toks = request(flags, "<batch>", wire_calls, {}, True)
+            batches.append((oneway, calls, executed, toks))
+        singles = []
+        for n, x in SINGLE_SCENARIOS:
+            executed, toks = request(0, P_NAMES[n], (x,), {}, False)
+            singles.append(((n, x), executed, toks))
+        return batches, singles
+    finally:
+        try:
+            d.close()
+        except Exception:
+            pass
+        shutil.rmtree(tmp, ignore_errors=True)
 
 
-def client_facts(tree, core_tree):
-    # BatchProxy.__resultsgenerator
-    g = _find_func(tree, "BatchProxy", "__resultsgenerator")
-    gen = []
-    for st in g.body:
-        if isinstance(st, ast.For) and _name(st.iter) == "results" and not st.orelse:
-            gen.append("for")
-            for s2 in st.body:
-                if isinstance(s2, ast.If) and isinstance(s2.test, ast.Call) and _name(s2.test.func) == "isinstance" \
-                        and _name(s2.test.args[0]) == _name(st.target):
-                    gen.append("if-isinstance:%s[" % _name(s2.test.args[1]).split(".")[-1])
-                    for s3 in s2.body:
-                        if isinstance(s3, ast.Expr) and isinstance(s3.value, ast.Call) and _name(s3.value.func) == _name(st.target) + ".raiseIt":
-                            gen.append("raiseIt")
-                        else:
-                            gen.append("other:" + type(s3).__name__)
-                    gen.append("]")
-                    gen.append("else[")
-                    for s3 in s2.orelse:
-                        if isinstance(s3, ast.Expr) and isinstance(s3.value, ast.Yield) and _name(s3.value.value) == _name(st.target):
-                            gen.append("yield")
-                        else:
-                            gen.append("other:" + type(s3).__name__)
-                    gen.append("]")
-                else:
-                    gen.append("other:" + type(s2).__name__)
-        else:
-            gen.append("other:" + type(st).__name__)
-    # _ExceptionWrapper.raiseIt
-    r = _find_func(core_tree, "_ExceptionWrapper", "raiseIt")
-    raise_it = []
-    for st in r.body:
-        if isinstance(st, ast.Raise) and st.cause is None:
-            raise_it.append("raise:" + _name(st.exc))
-        else:
-            raise_it.append("other:" + type(st).__name__)
-    # Proxy._pyroInvokeBatch
-    ib = _find_func(tree, "Proxy", "_pyroInvokeBatch")
-    inv = []
-    for st in ib.body:
-        if isinstance(st, ast.Assign) and _name(st.targets[0]) == "flags":
-            inv.append("flags=" + _name(st.value).split(".")[-1])
-        elif isinstance(st, ast.If) and _name(st.test) == "oneway" and not st.orelse:
-            inv.append("if:oneway[")
-            for s2 in st.body:
-                if isinstance(s2, ast.AugAssign) and isinstance(s2.op, ast.BitOr) and _name(s2.target) == "flags":
-                    inv.append("flags|=" + _name(s2.value).split(".")[-1])
-                else:
-                    inv.append("other:" + type(s2).__name__)
-            inv.append("]")
-        elif isinstance(st, ast.Return) and isinstance(st.value, ast.Call) and _name(st.value.func) == "self._pyroInvoke" \
-                and not st.value.keywords:
-            args = []
-            for a in st.value.args:
-                if isinstance(a, ast.Constant):
-                    args.append(str(a.value))
-                else:
-                    args.append(_name(a) or "?")
-            inv.append("return:_pyroInvoke(%s)" % ",".join(args))
-        else:
-            inv.append("other:" + type(st).__name__)
-    # BatchProxy.__call__
-    bc = _find_func(tree, "BatchProxy", "__call__")
-    if [a.arg for a in bc.args.args] != ["self", "oneway"] or len(bc.args.defaults) != 1 or \
-            not (isinstance(bc.args.defaults[0], ast.Constant) and bc.args.defaults[0].value is False):
-        raise ValueError("source shape not recognised: BatchProxy.__call__ signature")
-    call = []
-    for st in bc.body:
-        if isinstance(st, ast.Expr) and isinstance(st.value, ast.Call) and _name(st.value.func).endswith("_pyroClaimOwnership"):
-            call.append("claim")
-        elif isinstance(st, ast.Assign) and _name(st.targets[0]) == "results" and isinstance(st.value, ast.Call) \
-                and _name(st.value.func).endswith("_pyroInvokeBatch"):
-            call.append("results=_pyroInvokeBatch(%s)" % ",".join(_name(a).replace("self.__", "") for a in st.value.args))
-        elif isinstance(st, ast.Assign) and _name(st.targets[0]) == "self.__calls" and isinstance(st.value, ast.List) and not st.value.elts:
-            call.append("calls=[]")
-        elif isinstance(st, ast.If) and isinstance(st.test, ast.UnaryOp) and isinstance(st.test.op, ast.Not) \
-                and _name(st.test.operand) == "oneway" and not st.orelse:
-            call.append("if-not:oneway[")
-            for s2 in st.body:
-                if isinstance(s2, ast.Return) and isinstance(s2.value, ast.Call) and _name(s2.value.func).endswith("__resultsgenerator") \
-                        and [_name(a) for a in s2.value.args] == ["results"]:
-                    call.append("return:generator")
-                else:
-                    call.append("other:" + type(s2).__name__)
-            call.append("]")
-        else:
-            call.append("other:" + type(st).__name__)
-    # _BatchedRemoteMethod.__call__
-    bm = _find_func(tree, "_BatchedRemoteMethod", "__call__")
-    meth = []
-    if bm.args.vararg is None or bm.args.kwarg is None:
-        raise ValueError("source shape not recognised: _BatchedRemoteMethod.__call__ signature")
-    for st in bm.body:
-        if isinstance(st, ast.Expr) and isinstance(st.value, ast.Call) and _name(st.value.func) == "self.__calls.append" \
-                and isinstance(st.value.args[0], ast.Tuple):
-            els = [_name(e).replace("self.__", "") for e in st.value.args[0].elts]
-            meth.append("append:(%s)" % ",".join(els))
-        else:
-            meth.append("other:" + type(st).__name__)
-    return gen, raise_it, inv, call, meth
+def client_probes():
+    """-> (generator probes [(items, yielded, raised|None)], facts [(name, bool)])"""
+    common.repo_on_path()
+    from Pyro5 import client, core, protocol, errors
+    values = {50: ValueError("returned, not raised"), 51: errors.NamingError("returned, not raised"), 52: None, 53: []}
+
+    def to_item(tok):
+        if tok % 2:
+            return core._ExceptionWrapper(ValueError(tok // 2))
+        v = tok // 2
+        return values[v] if v in values else v
+
+    def value_id(v):
+        for k, obj in values.items():
+            if v is obj:
+                return k
+        if isinstance(v, int) and not isinstance(v, bool) and 0 <= v < 50:
+            return v
+        return 98
+
+    class FakeProxy(object):
+        """stands where the real Proxy stands behind a BatchProxy: records what is submitted, answers from a script"""
+        def __init__(self, answer):
+            self.answer, self.submits = answer, []
+
+        def _pyroClaimOwnership(self):
+            pass
+
+        def _pyroInvokeBatch(self, calls, oneway=False):
+            self.submits.append((list(calls), bool(oneway)))
+            return None if oneway else self.answer
+
+    gens = []
+    for toks in GENERATOR_SCENARIOS:
+        fp = FakeProxy([to_item(t) for t in toks])
+        bp = client.BatchProxy(fp)
+        for _ in toks:
+            bp.anything(0)
+        yielded, raised = [], None
+        try:
+            for v in bp():
+                yielded.append(value_id(v))
+        except Exception as e:      # noqa
+            raised = _exc_token(e)
+        gens.append((toks, yielded, raised))
+
+    facts = []
+    # collection and submission
+    fp = FakeProxy([1, 2, 3])
+    bp = client.BatchProxy(fp)
+    bp.first(1)
+    bp.second(2, 3, k=4)
+    bp.third.sub()
+    r = bp()
+    facts.append(("calls-forwarded-in-call-order-with-args-and-kwargs",
+                  len(fp.submits) == 1 and [tuple(c) for c in fp.submits[0][0]][:2] == [("first", (1,), {}), ("second", (2, 3), {"k": 4})]))
+    facts.append(("dotted-name-forwarded-as-one-name", len(fp.submits) == 1 and len(fp.submits[0][0]) == 3
+                  and tuple(fp.submits[0][0][2]) == ("third.sub", (), {})))
+    facts.append(("normal-submit-is-not-oneway-and-returns-the-results", len(fp.submits) == 1 and fp.submits[0][1] is False
+                  and r is not None and list(r) == [1, 2, 3]))
+    bp()
+    facts.append(("one-submit-per-call-and-list-cleared-after-submit", len(fp.submits) == 2 and fp.submits[1][0] == []))
+    fp = FakeProxy([1])
+    bp = client.BatchProxy(fp)
+    bp.first(1)
+    r = bp(oneway=True)
+    facts.append(("oneway-forwarded-and-returns-None", r is None and fp.submits == [([("first", (1,), {})], True)]))
+    # Proxy._pyroInvokeBatch: one "<batch>" request carrying the calls, FLAGS_BATCH, FLAGS_ONEWAY iff oneway
+    sent = []
+
+    class RecordingProxy(client.Proxy):
+        def _pyroInvoke(self, methodname, vargs, kwargs, flags=0, objectId=None):
+            sent.append((methodname, vargs, kwargs, flags))
+            return "reply"
+
+    rp = RecordingProxy("PYRO:probe@localhost:1")
+    calls = [("first", (1,), {})]
+    back = rp._pyroInvokeBatch(calls)
+    rp._pyroInvokeBatch(calls, True)
+    ok = len(sent) == 2
+    facts.append(("invokeBatch-sends-one-<batch>-request-with-the-calls-and-hands-back-the-reply",
+                  ok and back == "reply" and all(s[0] == "<batch>" and list(s[1]) == calls and not s[2] for s in sent)))
+    facts.append(("invokeBatch-flags-batch-and-oneway-iff-oneway",
+                  ok and sent[0][3] == protocol.FLAGS_BATCH and sent[1][3] == protocol.FLAGS_BATCH | protocol.FLAGS_ONEWAY))
+    # _ExceptionWrapper.raiseIt raises the wrapped object itself
+    e = ValueError("the one")
+    try:
+        core._ExceptionWrapper(e).raiseIt()
+        same = False
+    except Exception as x:      # noqa
+        same = x is e
+    facts.append(("raiseIt-raises-the-wrapped-exception-object", same))
+    return gens, facts
 
 
 def dumps_call_probe():
@@ -278,47 +324,45 @@ def wrapper_probe():
     return out
 
 
-def lean_str_list(xs):
-    return "[" + ", ".join(json.dumps(x) for x in xs) + "]"
+def _b(x):
+    return "true" if x else "false"
+
+
+def _nats(xs):
+    return "[" + ", ".join(str(x) for x in xs) + "]"
+
+
+def _pairs(ps):
+    return "[" + ", ".join("(%d, %d)" % (a, b) for a, b in ps) + "]"
 
 
 def extract():
     common.repo_on_path()
-    from Pyro5 import server, client, core
-    stree = ast.parse(open(server.__file__).read())
-    ctree = ast.parse(open(client.__file__).read())
-    otree = ast.parse(open(core.__file__).read())
-    shape, single_gate, oneway_first, flag_after, same_fallback = server_facts(stree)
-    gen, raise_it, inv, call, meth = client_facts(ctree, otree)
-    probe = dumps_call_probe()
-    wprobe = wrapper_probe()
-    b = lambda x: "true" if x else "false"
-    rel = lambda m: os.path.relpath(m.__file__, common.REPO)
-    return f"""-- GENERATED by harness/props/c11_extract.py from {rel(server)}, {rel(client)}, {rel(core)}, Pyro5/serializers.py — do not edit
+    batches, singles = server_probes()
+    gens, facts = client_probes()
+    probe, wprobe = dumps_call_probe(), wrapper_probe()
+    sp = ",\n  ".join("(%s, %s, %d, %s)" % (_b(ow), _pairs(cs), ex, _nats(t)) for ow, cs, ex, t in batches)
+    si = ",\n  ".join("((%d, %d), %d, %s)" % (c[0], c[1], ex, _nats(t)) for c, ex, t in singles)
+    ge = ",\n  ".join("(%s, %s, %s)" % (_nats(t), _nats(y), "none" if r is None else "some %d" % r) for t, y, r in gens)
+    fa = ",\n  ".join("(%s, %s)" % (json.dumps(n), _b(ok)) for n, ok in facts)
+    return f"""-- GENERATED by harness/props/c11_extract.py by probing the real Pyro5.server / client / core / serializers of the checked tree — do not edit
 namespace Pyro.Gen.C11
-/-- statements of the body of the `for` loop in the batch branch of Daemon.handleRequest, in order -/
-def batchLoopShape : List String := {lean_str_list(shape)}
-/-- the gate function called by the single-call branch of handleRequest -/
-def singleCallGate : String := {json.dumps(single_gate)}
-/-- `if request_flags & FLAGS_ONEWAY: return` precedes serializer.dumps(data) / conn.send -/
-def onewayReturnsBeforeReply : Bool := {b(oneway_first)}
-/-- `wasBatched = True` follows the loop -/
-def batchedFlagAfterLoop : Bool := {b(flag_after)}
-/-- a failed batch member and a failed plain call both go through Daemon._serializeException(serializer, <exception>, <traceback>) -/
-def sameSerializeOrFallback : Bool := {b(same_fallback)}
-/-- BatchProxy.__resultsgenerator -/
-def resultsGenShape : List String := {lean_str_list(gen)}
-/-- _ExceptionWrapper.raiseIt -/
-def raiseItShape : List String := {lean_str_list(raise_it)}
-/-- Proxy._pyroInvokeBatch -/
-def invokeBatchShape : List String := {lean_str_list(inv)}
-/-- BatchProxy.__call__ -/
-def batchCallShape : List String := {lean_str_list(call)}
-/-- _BatchedRemoteMethod.__call__ -/
-def batchedMethodShape : List String := {lean_str_list(meth)}
+/-- observed on the real Daemon.handleRequest (FLAGS_BATCH): (oneway, calls as (name id, argument), calls executed when
+    handleRequest returned, reply: [] nothing | 0,e exception response | 1,items result list with FLAGS_BATCH (2v value, 2e+1 wrapper)) -/
+def serverProbes : List (Bool × List (Nat × Nat) × Nat × List Nat) := [
+  {sp}]
+/-- observed on the real Daemon.handleRequest, plain single calls: (call, executed, reply: 2,v value | 0,e exception response) -/
+def singleProbes : List ((Nat × Nat) × Nat × List Nat) := [
+  {si}]
+/-- observed on a real BatchProxy over a scripted proxy: (result list handed to the client, values yielded, exception raised) -/
+def generatorProbes : List (List Nat × List Nat × Option Nat) := [
+  {ge}]
+/-- observed behaviour of BatchProxy / _BatchedRemoteMethod / Proxy._pyroInvokeBatch / _ExceptionWrapper.raiseIt -/
+def clientFacts : List (String × Bool) := [
+  {fa}]
 /-- per serializer (sorted by name): dumpsCall(obj, "<batch>", calls, None) succeeds and loads back -/
-def dumpsCallNoKwargs : List (String × Bool) := [{", ".join('(%s, %s)' % (json.dumps(n), b(ok)) for n, ok in probe)}]
+def dumpsCallNoKwargs : List (String × Bool) := [{", ".join('(%s, %s)' % (json.dumps(n), _b(ok)) for n, ok in probe)}]
 /-- per serializer (sorted by name): loads(dumps([1, _ExceptionWrapper(ValueError("x"))])) gives the list with the wrapper back -/
-def wrapperInReplyList : List (String × Bool) := [{", ".join('(%s, %s)' % (json.dumps(n), b(ok)) for n, ok in wprobe)}]
+def wrapperInReplyList : List (String × Bool) := [{", ".join('(%s, %s)' % (json.dumps(n), _b(ok)) for n, ok in wprobe)}]
 end Pyro.Gen.C11
 """
